@@ -605,7 +605,34 @@ def pickling_facts(rows):
                         dropped.append(a.value if isinstance(a, ast.Constant) and isinstance(a.value, str) else "<dynamic>")
             if isinstance(n, ast.Call) and isinstance(n.func, ast.Attribute) and n.func.attr == "clear":
                 dropped.append("<all>")
-    return {"reduce_owners": owners, "reduce_drops_token": drops, "reconstruct_passes_token": passes, "getstate_dropped": dropped}
+    # in-place updates (C07, Props/C07Inplace.lean): every `cached_property` of Array is derived state; `Array._replace_expr`
+    # (setitem, ufunc out=, compute_chunk_sizes, the _chunks setter) must remove each of them from `__dict__`
+    import functools as _ft
+
+    cached = sorted(k for k, v in Array.__dict__.items() if isinstance(v, _ft.cached_property) or type(v).__name__ == "cached_property")
+    replaced = []
+    replace_sets_expr = False
+    if "_replace_expr" in Array.__dict__:
+        node, _f, _l = _func_ast(Array.__dict__["_replace_expr"])
+        if node is not None:
+            def _pop_target(call):
+                return (isinstance(call, ast.Call) and isinstance(call.func, ast.Attribute) and call.func.attr == "pop" and call.args
+                        and isinstance(call.func.value, ast.Attribute) and call.func.value.attr == "__dict__")
+
+            for n in ast.walk(node):
+                if isinstance(n, ast.Assign) and any(isinstance(t, ast.Attribute) and t.attr == "_expr" for t in n.targets):
+                    replace_sets_expr = True
+                if isinstance(n, ast.For) and isinstance(n.target, ast.Name) and isinstance(n.iter, (ast.Tuple, ast.List)):
+                    pops_var = any(_pop_target(m) and isinstance(m.args[0], ast.Name) and m.args[0].id == n.target.id for m in ast.walk(n))
+                    if pops_var:
+                        for e in n.iter.elts:
+                            replaced.append(e.value if isinstance(e, ast.Constant) and isinstance(e.value, str) else "<dynamic>")
+                if _pop_target(n) and isinstance(n.args[0], ast.Constant) and isinstance(n.args[0].value, str):
+                    replaced.append(n.args[0].value)
+                if isinstance(n, ast.Call) and isinstance(n.func, ast.Attribute) and n.func.attr == "clear":
+                    replaced.append("<all>")
+    return {"reduce_owners": owners, "reduce_drops_token": drops, "reconstruct_passes_token": passes, "getstate_dropped": dropped,
+            "array_cached": cached, "replace_expr_dropped": replaced, "replace_expr_sets_expr": replace_sets_expr}
 
 
 # ------------------------------------------------------------------ Lean emission
@@ -697,6 +724,12 @@ def lean_source(rows, sites, facts=None):
         L.append("def reconstructPassesToken : Bool := " + ("true" if facts["reconstruct_passes_token"] else "false"))
         L.append("/-- entries of `Array.__dict__` removed by `Array.__getstate__` -/")
         L.append("def getstateDropped : List String := " + _llist(facts["getstate_dropped"]))
+        L.append("/-- every `functools.cached_property` defined on class `Array` (derived state living in `__dict__`) -/")
+        L.append("def arrayCachedProperties : List String := " + _llist(facts["array_cached"]))
+        L.append("/-- entries of `Array.__dict__` removed by `Array._replace_expr` (the in-place swap of the expression) -/")
+        L.append("def replaceExprDropped : List String := " + _llist(facts["replace_expr_dropped"]))
+        L.append("/-- `Array._replace_expr` assigns `self._expr` -/")
+        L.append("def replaceExprSetsExpr : Bool := " + ("true" if facts["replace_expr_sets_expr"] else "false"))
     L.append("")
     L.append("end Dask.Generated.NameTables")
     return "\n".join(L) + "\n"
